@@ -20,8 +20,10 @@ import (
 // configuration and the resolved constructor, not the position of the call, so it is stable under refactorings of the
 // blob-data function; the rule runs once per build configuration because the constructor is selected by build tags.
 
-// c06InflateOK: constructors whose readers return io.EOF (or an error) at the end of the compressed stream whatever
-// follows it in the input.
+// c06InflateOK: constructors of decompressors that are trusted, which means both of: (a) Read terminates at the end of
+// the compressed stream whatever follows it in the input (io.EOF or an error, never a loop without progress); (b) a
+// stream whose input ends before the final block and the checksum is reported as an error (io.ErrUnexpectedEOF), not
+// as a clean io.EOF, so that truncated or checksum-less data is not accepted on the strength of its length alone.
 var c06InflateOK = map[string]bool{
 	"compress/zlib.NewReader":      true,
 	"compress/zlib.NewReaderDict":  true,
@@ -203,7 +205,7 @@ func c06E12(r *core.R) {
 		if c06InflateOK[ct.name] {
 			r.OK(c, ct.call.Pos(), "the blob data is inflated by a reader from %s, whose Read ends with io.EOF (or an error) at the end of the compressed stream whatever follows it", ct.name)
 		} else {
-			r.Bad(c, ct.call.Pos(), "in build configuration %s the blob data is inflated by a reader from %s, which is not in the table of decompressors known to terminate when the compressed stream has ended and input is left over: with trailing bytes after the zlib stream a single Read call can spin forever, so corrupt compressed data hangs the decoder goroutine instead of ending the scan in an error (known-terminating: compress/zlib, compress/flate)", cfgName, ct.name)
+			r.Bad(c, ct.call.Pos(), "in build configuration %s the blob data is inflated by a reader from %s, which is not in the table of decompressors known to behave like compress/zlib: to terminate when the compressed stream has ended and input is left over (otherwise trailing bytes after the zlib stream make a single Read call spin forever and corrupt compressed data hangs the decoder goroutine), and to report a stream whose input ends before the final block and checksum as an error (otherwise truncated or checksum-less data of the right length is accepted). Trusted: compress/zlib, compress/flate", cfgName, ct.name)
 		}
 	}
 	switch {
